@@ -306,7 +306,97 @@ def r17_8(ctx):
     ctx.ob("R17.8", "find_or_insert_ns-registers-every-unbound-name", bad is None and k >= 5, bad or "%d paths: registered iff (prefix or namespace) and not yet bound" % k, "xml5ever serialize find_or_insert_ns")
 
 
+def _bytes_text(x):
+    m = re.fullmatch(r"\[([0-9, ]*)\]", x)
+    if m:
+        return "".join(chr(int(v)) for v in m.group(1).split(",") if v.strip())
+    m = re.fullmatch(r'b?"(.*)"(\.as_bytes\(\))?', x)
+    return m.group(1) if m else None
+
+
+def r17_12(ctx):
+    """comments, processing instructions and the doctype name are written verbatim between fixed delimiters: the pieces written on
+    the complete path are, in order, exactly the delimiters and the caller's strings - nothing is inserted depending on the text"""
+    want = {
+        "write_comment": ["<!--", "$p1", "-->"],
+        "write_processing_instruction": ["<?", "$p1", " ", "$p2", "?>"],
+        "write_doctype": ["<!DOCTYPE ", "$p1", ">"],
+    }
+    for fn, seq in want.items():
+        key, pcs = nfq.cells(ctx, "xml_serialize", "XmlSerializer<Wr>[Serializer]::" + fn)
+        bad = None
+        full = 0
+        for pc in nfq.feasible(pcs):
+            pieces = []
+            for a, args in pc["actions"]:
+                if a in ("self.writer.write_all", "self.writer.write", "self.writer.write_str"):
+                    x = str(args[0])
+                    m = re.fullmatch(r"(p\d)(\.as_bytes\(\))?", x)
+                    pieces.append("$" + m.group(1) if m else _bytes_text(x) if _bytes_text(x) is not None else "?" + x)
+                elif a not in ("self.writer.flush",):
+                    pieces.append("!" + a)
+            # adjacent literals may be split or joined freely
+            def norm(ps):
+                out = []
+                for p_ in ps:
+                    if out and not p_.startswith(("$", "?", "!")) and not out[-1].startswith(("$", "?", "!")):
+                        out[-1] += p_
+                    else:
+                        out.append(p_)
+                return out
+            got, exp = norm(pieces), norm(seq)
+            content_guards = [g for g in pc["guards"] if not re.search(r"write(_all|_str)?\(", g)]
+            if content_guards:
+                bad = "%s looks at the text it writes (%s): what is written depends on the content" % (fn, content_guards[0][:60])
+            if got == exp:
+                full += 1
+            elif got != exp[:len(got)] or str(pc["ret"]) not in ("None", "Err(_)") and "Err" not in str(pc["ret"]) and len(got) < len(exp) and not any(v is False for v in pc["guards"].values()):
+                bad = "%s writes %s; the node's text must appear verbatim as %s" % (fn, got, exp)
+        ctx.ob("R17.12", "written-verbatim/" + fn, bad is None and full >= 1, bad or "delimiters and the caller's strings, in order, nothing else", "xml5ever serialize " + fn)
+
+
+def r17_10(ctx):
+    """the serializer writes every attribute as ` name="value"`, so on re-parsing every attribute name begins in the state that
+    follows a quoted value and white space (TagAttrNameBefore).  A character with which some other state starts an attribute name
+    must start one there too - otherwise the parser can produce a name the serializer's output does not read back"""
+    T = ctx.tables("xml")
+
+    def starts(st):
+        out = {}
+        for pc in T["step"].get(st) or []:
+            for a in pc.get("acq") or []:
+                if a[0] == "get_char" and isinstance(a[1], (tuple, list)):
+                    lo, hi = a[1]
+                    begins = any(x == "create_attribute" for x, _ in pc["actions"])
+                    out[(lo, hi)] = out.get((lo, hi), False) or begins
+        return out
+    base = starts("TagAttrNameBefore")
+    if not base or not any(base.values()):
+        raise AnchorMissing("TagAttrNameBefore starts no attribute")
+    n = 0
+    for st in sorted(T["step"]):
+        if st == "TagAttrNameBefore":
+            continue
+        for cls, begins in sorted(starts(st).items()):
+            if not begins:
+                continue
+            n += 1
+            ok = base.get(cls) is True
+            ctx.ob("R17.10", "attribute-name-start/%s/%s" % (st, "U+%04X" % cls[0] if cls[0] == cls[1] else "U+%04X-U+%04X" % cls), ok,
+                   "also starts a name after a quoted value" if ok else
+                   "state %s starts an attribute name with %r, the state after a quoted value (TagAttrNameBefore) does not: `<a b %sx=\"1\"/>` gives an attribute `%sx` that is serialized as ` %sx=\"1\"` and read back differently" % (
+                       st, chr(cls[0]), chr(cls[0]), chr(cls[0]), chr(cls[0])), "xml tokenizer " + st)
+    ctx.floor("R17.10", "name-starting-classes", n, 20)
+
+
 def run(ctx):
+    ctx.rule("R17.12", "comments, processing instructions and doctype names are written verbatim between their delimiters")
+    ctx.guard("R17.12", "verbatim", lambda: r17_12(ctx))
+    ctx.rule("R17.11", "what the serializer escapes is decoded again: a matched reference that ends in ';' is always decoded, also directly before '=' inside an attribute value (R14.6)")
+    from .C14 import semicolon_rule
+    ctx.guard("R17.11", "semicolon/xml", lambda: semicolon_rule(ctx, "R17.11", "xml"))
+    ctx.rule("R17.10", "every character that starts an attribute name in some tokenizer state also starts one in the state the serializer's output is read in")
+    ctx.guard("R17.10", "attr-name-start", lambda: r17_10(ctx))
     ctx.rule("R17.9", "the tokenizer takes attribute value characters verbatim (no folding of line breaks or other characters inside a value)")
     from . import tokrules as _trv
     for _w in ('xml',):
